@@ -4,7 +4,8 @@ Call monitors (attached in place on cryocat.geom, DESIGN.md 4/C06); every expect
 matrices (vmon.oracles.so3 / c06_oracle), never from scipy or cryoCAT:
   angdist       post(angular_distance): one finite angle per pair, in [0,180], = rotation angle of R1^T R2
   cone          post(cone_distance): = angle between the third columns (images of the z-axis), in [0,180]
-  inplane       post(inplane_distance): one finite value per pair, in [0,180]
+  inplane       post(inplane_distance): one finite value per pair, in [0,180]; <= 1e-4 where the two orientations are equal
+                (own matrices agree to 1e-12) - for every input form that arrives (Rotation objects or Euler arrays)
   cone_inplane  post(cone_inplane_distance): (cone, inplane) with the two clauses above (Euler arrays and Rotations)
   compare       post(compare_rotations): every returned component satisfies its clause (all four rotation_type values)
   e2n           post(euler_angles_to_normals): one unit row per orientation = third column of R
@@ -12,7 +13,9 @@ matrices (vmon.oracles.so3 / c06_oracle), never from scipy or cryoCAT:
   viz           post(visualize_rotations / visualize_angles): = radius * image of the z-axis
 Relational oracles (driver, on results of real calls):
   symmetry      d(A,B) = d(B,A)
-  zero_equal    d(A,A) = 0 (same object and re-encoded equal rotation); inplane(A,A) = 0
+  zero_equal    d(A,A) = 0 (same object and re-encoded equal rotation); inplane(A,A) = 0; in-plane distance of two DIFFERENT
+                Euler triples of the same rotation (+-360 shifts, phi/psi trade-off at gimbal lock) = 0 through inplane_distance,
+                cone_inplane_distance and compare_rotations, passed as arrays, Rotation objects and mixed
   invariance    d(QA,QB) = d(A,B) = d(AQ,BQ)
   triangle      d(A,C) <= d(A,B) + d(B,C)
   dispatch      compare_rotations(rotation_type=t) returns the distance named t (= the direct call on the same input)
@@ -182,14 +185,55 @@ def _plain(A):
     return A["convention"] == "zxz" and A["degrees"] is True and A["c_symmetry"] == 1
 
 
+EQ_TOL = 1e-12        # two orientations are "equal" when their hand-written matrices agree to this, entry-wise
+
+
+def equal_rows(M1, M2):
+    """rows holding the same rotation (own matrices) whose in-plane angle is well defined numerically: exact gimbal lock
+    (sin(theta) <= 1e-9) or sin(theta) >= 1e-3; strictly in between the first Euler angle is ill-conditioned: not judged."""
+    eq = np.max(np.abs(M1 - M2).reshape(len(M1), 9), axis=1) <= EQ_TOL
+    st = np.sqrt(M1[:, 0, 2] ** 2 + M1[:, 1, 2] ** 2)
+    return eq & ((st <= 1e-9) | (st >= 1e-3))
+
+
+def _inplane_verdict(got, M1, M2, what):
+    """in-plane clause: one finite value per pair, in [0,180], and <= ZERO_TOL where the two orientations are equal"""
+    n = len(M1)
+    ok, w = _angle_verdict(got, None, n, what)
+    if ok:
+        rows = equal_rows(M1, M2)
+        if rows.any():
+            g = np.asarray(got, dtype=float)
+            bad = rows & ~(np.abs(g) <= ZERO_TOL)
+            if bad.any():
+                j = O.first_bad(bad)
+                ok, w = False, {"what": what, "problem": "does not vanish for equal orientations", "row": j, "n": n, "got": float(g[j]),
+                                "expected": 0.0, "tol": ZERO_TOL, "n_bad_rows": int(bad.sum()),
+                                "max_matrix_difference": float(np.max(np.abs(M1[j] - M2[j])))}
+    return ok, w
+
+
+def _arg_desc(A, k1, k2, j):
+    """the raw arguments of row j (Euler triple as passed, or 'Rotation')"""
+    out = {}
+    for name, k in (("arg1", k1), ("arg2", k2)):
+        x = A.get(k)
+        if isinstance(x, np.ndarray):
+            out[name] = np.atleast_2d(x)[j].tolist()
+        else:
+            out[name] = type(x).__name__
+    return out
+
+
 def _ip_applicable(A):
-    return _rot_only(A) and _plain(A) and _cone_snapshot(A) is not None
+    return _plain(A) and _ad_snapshot(A) is not None
 
 
 def _ip_post(ctx, A, OLD, result):
     M1, M2 = OLD
-    ok, w = _angle_verdict(result, None, len(M1), "inplane_distance")
+    ok, w = _inplane_verdict(result, M1, M2, "inplane_distance")
     if not ok and "row" in w:
+        w.update(_arg_desc(A, "input_rot1", "input_rot2", w["row"]))
         w.update(_row_desc(M1, M2, w["row"]))
     ctx.check("inplane", ok, w)
 
@@ -206,7 +250,9 @@ def _cip_post(ctx, A, OLD, result):
         return
     ok, w = _angle_verdict(result[0], O.cone_angle(M1, M2), n, "cone_inplane_distance[0] (cone)")
     if ok:
-        ok, w = _angle_verdict(result[1], None, n, "cone_inplane_distance[1] (inplane)")
+        ok, w = _inplane_verdict(result[1], M1, M2, "cone_inplane_distance[1] (inplane)")
+        if not ok and "row" in w:
+            w.update(_arg_desc(A, "input_rot1", "input_rot2", w["row"]))
     if not ok and "row" in w:
         w.update(_row_desc(M1, M2, w["row"]))
     ctx.check("cone_inplane", ok, w)
@@ -237,9 +283,11 @@ def _cmp_post(ctx, A, OLD, result):
         parts = [(t, result)]
     ok, w = True, None
     for name, got in parts:
-        ok, w = _angle_verdict(got, exp[name], n, "compare_rotations(rotation_type=%r) component %s" % (t, name))
+        what = "compare_rotations(rotation_type=%r) component %s" % (t, name)
+        ok, w = _inplane_verdict(got, M1, M2, what) if name == "in_plane_distance" else _angle_verdict(got, exp[name], n, what)
         if not ok:
             if "row" in w:
+                w.update(_arg_desc(A, "angles1", "angles2", w["row"]))
                 w.update(_row_desc(M1, M2, w["row"]))
             break
     ctx.check("compare", ok, w)
@@ -389,7 +437,7 @@ def setup(ctx):
     _S.update(ctx=ctx, srot=srot, reg={})
     f_ad = monitors.wrap(ctx, geom, "angular_distance", "angdist", _ad_post, _ad_applicable, _ad_snapshot)
     f_cd = monitors.wrap(ctx, geom, "cone_distance", "cone", _cone_post, _cone_applicable, _cone_snapshot)
-    f_ip = monitors.wrap(ctx, geom, "inplane_distance", "inplane", _ip_post, _ip_applicable, _cone_snapshot)
+    f_ip = monitors.wrap(ctx, geom, "inplane_distance", "inplane", _ip_post, _ip_applicable, _ad_snapshot)
     f_ci = monitors.wrap(ctx, geom, "cone_inplane_distance", "cone_inplane", _cip_post, _cip_applicable, _ad_snapshot)
     f_cr = monitors.wrap(ctx, geom, "compare_rotations", "compare", _cmp_post, _cmp_applicable, _cmp_snapshot)
     f_en = monitors.wrap(ctx, geom, "euler_angles_to_normals", "e2n", _e2n_post, _e2n_applicable, _e2n_snapshot)
@@ -673,6 +721,66 @@ def _cmp_arrays(got, ref, n, tol):
                    "n_bad_rows": int(bad.sum())}
 
 
+def alias_euler(E, rng):
+    """another Euler triple of the same rotation for every row: any component +-360; at gimbal lock additionally
+    theta = 0: (phi+d, theta, psi-d), theta = 180: (phi+d, theta, psi+d) with d random or a multiple of 45 degrees."""
+    E = np.atleast_2d(np.asarray(E, dtype=float))
+    n = len(E)
+    th = np.radians(E[:, 1])
+    lock = np.abs(np.sin(th)) <= 1e-9
+    d = np.where(rng.random(n) < 0.5, rng.uniform(-360.0, 360.0, n), rng.integers(-8, 9, n) * 45.0)
+    d = np.where(lock, d, 0.0)
+    E2 = E.copy()
+    E2[:, 0] += d
+    E2[:, 2] += np.where(np.cos(th) > 0, -1.0, 1.0) * d
+    E2 += 360.0 * rng.integers(-1, 2, E.shape)
+    return E2
+
+
+def equal_orientation_suite(ctx, E1, E2, single=False, label="alias"):
+    """E1, E2: (n,3) Euler triples.  Rows whose own matrices coincide are equal orientations: the in-plane distance must
+    vanish there whatever the encoding (arrays, Rotation objects, mixed) and whatever the entry point."""
+    g = ctx.geom
+    M1, M2 = so3.zxz_rows(E1), so3.zxz_rows(E2)
+    rows = equal_rows(M1, M2)
+    n = len(M1)
+    differ = rows & np.any(E1 != E2, axis=1)
+    if not rows.any():
+        ctx.ood("zero_equal")
+        return 0
+    arr = lambda E: (E[0].copy() if single else E.copy())
+    rot = lambda M: as_rotation(ctx, M, single)
+    calls = [("cone_inplane_distance(array,array)", lambda: g.cone_inplane_distance(arr(E1), arr(E2)), 1),
+             ("cone_inplane_distance(Rotation,array)", lambda: g.cone_inplane_distance(rot(M1), arr(E2)), 1),
+             ("cone_inplane_distance(array,Rotation)", lambda: g.cone_inplane_distance(arr(E1), rot(M2)), 1),
+             ("cone_inplane_distance(Rotation,Rotation)", lambda: g.cone_inplane_distance(rot(M1), rot(M2)), 1),
+             ("inplane_distance(Rotation,Rotation)", lambda: g.inplane_distance(rot(M1), rot(M2)), None),
+             ("compare_rotations(array,array)", lambda: g.compare_rotations(arr(E1), arr(E2)), 2),
+             ("compare_rotations(array,Rotation,in_plane_distance)",
+              lambda: g.compare_rotations(arr(E1), rot(M2), rotation_type="in_plane_distance"), None),
+             ("compare_rotations(Rotation,array,in_plane_distance)",
+              lambda: g.compare_rotations(rot(M1), arr(E2), rotation_type="in_plane_distance"), None)]
+    for name, f, idx in calls:
+        ok, r = ctx.call(name, f)
+        if not ok:
+            continue
+        try:
+            v = np.asarray(r if idx is None else r[idx], dtype=float)
+            good = v.shape == (n,) and bool(np.all(np.abs(v[rows]) <= ZERO_TOL))
+            w = None
+            if not good:
+                j = O.first_bad(rows & ~(np.abs(v) <= ZERO_TOL)) if v.shape == (n,) else None
+                w = {"clause": "in-plane distance of two Euler triples of the same rotation", "call": name, "shape": list(v.shape)}
+                if j is not None:
+                    w.update(row=j, n=n, got=float(v[j]), expected=0.0, tol=ZERO_TOL, triple1=E1[j].tolist(), triple2=E2[j].tolist(),
+                             max_matrix_difference=float(np.max(np.abs(M1[j] - M2[j]))))
+        except Exception as e:
+            good, w = False, {"call": name, "problem": "result not usable: %s" % type(e).__name__}
+        ctx.check("zero_equal", good, w)
+    ctx.call("angular_distance(array,array)", g.angular_distance, arr(E1), arr(E2))     # judged by the angdist monitor (0 expected)
+    return int(differ.sum())
+
+
 def pair_suite(ctx, rng, XA, XB, XC, Q, forms, radius=1.0, tag="", light=False):
     """All relational oracles on one triple of batches.  Value clauses are judged by the call monitors on the same calls."""
     g = ctx.geom
@@ -783,6 +891,8 @@ def pair_suite(ctx, rng, XA, XB, XC, Q, forms, radius=1.0, tag="", light=False):
         return
     # z-axis images
     EA, MEA = present(ctx, XA, "euler", rng)
+    # equal orientations written as different Euler triples (360-degree shifts; phi/psi trade-off at gimbal lock)
+    equal_orientation_suite(ctx, EA, alias_euler(EA, rng), single)
     ctx.call("euler_angles_to_normals", g.euler_angles_to_normals, EA)
     ctx.call("euler_angles_to_normals(3,)", g.euler_angles_to_normals, EA[int(rng.integers(0, n))].copy())
     ctx.call("visualize_angles", g.visualize_angles, EA, plot_rotations=False)
@@ -917,6 +1027,14 @@ def extra(ctx):
         npairs += len(L)
         _S["reg"].clear()
     ctx.extra["euler_lattice_pairs"] = npairs
+    # all pairs of the lattice's gimbal-lock rows (theta in {0,180}: 128 triples, 16 rotations): equal rotations written
+    # with different triples must have in-plane distance 0 in every input form
+    Lg = L[(L[:, 1] == 0.0) | (L[:, 1] == 180.0)]
+    ja, jb = np.repeat(np.arange(len(Lg)), len(Lg)), np.tile(np.arange(len(Lg)), len(Lg))
+    ndiff = equal_orientation_suite(ctx, Lg[ja], Lg[jb], label="lattice")
+    _S["reg"].clear()
+    ctx.extra["euler_lattice_gimbal_pairs"] = len(ja)
+    ctx.extra["euler_lattice_gimbal_pairs_same_rotation_different_triples"] = ndiff
     # normals: every vector with components in {-1,0,1} (26) x a set of lengths, both output orders
     import itertools
     V = np.array([p for p in itertools.product([-1.0, 0.0, 1.0], repeat=3) if any(p)])
